@@ -34,11 +34,13 @@ ASSUMPTIONS = [
 ]
 
 def expected_of(case):
-    f = TagFilter(case["raising"], {int(k): v for k, v in case["fan"].items()}, 0.0, {int(k): v for k, v in case.get("kinds", {}).items()})
+    f = TagFilter(case["raising"], {int(k): v for k, v in case["fan"].items()}, 0.0, {int(k): v for k, v in case.get("kinds", {}).items()}, case.get("alias"))
     return f, Counter(f.expected(items_of(case)))
 
 def items_of(case):
-    return list(case["items_list"]) if case.get("items_list") is not None else list(range(case["items"]))
+    items = list(case["items_list"]) if case.get("items_list") is not None else list(range(case["items"]))
+    alias = case.get("alias") or {}
+    return [sim_c08.ALIASES[alias[str(i)]] if str(i) in alias else i for i in items]
 
 def calls_of(case):
     """the first call, and - when the case re-uses the Multiprocessor object - the second one (items numbered from 100)"""
@@ -49,10 +51,11 @@ def calls_of(case):
     return out
 
 def combined_filter(case, cls, delay=0.0):
-    raising, fan, kinds = set(), {}, {}
+    raising, fan, kinds, alias = set(), {}, {}, {}
     for c in calls_of(case):
         raising |= set(c["raising"]); fan.update({int(k): v for k, v in c["fan"].items()}); kinds.update({int(k): v for k, v in c.get("kinds", {}).items()})
-    return cls(raising, fan, delay, kinds)
+        alias.update(c.get("alias") or {})
+    return cls(raising, fan, delay, kinds, alias)
 
 def is_injected(case, exc):
     """exc is the error the filter raised for one of the raising items (type and message)"""
@@ -96,7 +99,10 @@ def judge(case, outs, exc, handled=None, who="caller"):
 def consume(gen, call, outs, res):
     try:
         if call["abandon"] is None:
-            for o in gen: outs.append(o)
+            for o in gen:
+                outs.append(o)
+                if call.get("pause") and len(outs) == 1:
+                    time.sleep(call["pause"])   # a consumer that stalls while finished workers still hold buffered outputs
         else:
             it = iter(gen)
             for _ in range(call["abandon"]):
@@ -173,7 +179,13 @@ def sim_cases(draw, tier):
         then = {"items": k2, "items_list": ids, "raising": r2, "fan": {str(i): draw(st.integers(0, 3)) for i in ids[:2]} if ids and draw(st.booleans()) else {},
                 "abandon": draw(st.integers(0, k2 + 1)) if draw(st.integers(0, 4)) == 0 else None,
                 "kinds": {str(i): draw(st.sampled_from(sorted(KINDS))) for i in r2 if draw(st.booleans())}}
-    return {"n": n, "m": m, "items": items, "raising": raising, "fan": fan, "abandon": abandon, "kinds": kinds, "then": then,
+    alias = {}
+    if items and draw(st.integers(0, 5)) == 0:
+        # some items travel as None / falsy values (the first one most often: the stream is peeked for emptiness)
+        alias["0"] = draw(st.sampled_from(sorted(sim_c08.ALIASES)))
+        if items > 2 and draw(st.booleans()):
+            alias[str(draw(st.integers(1, items - 1)))] = draw(st.sampled_from([a for a in ("None", "empty-str", "empty-tuple") if a != alias["0"]]))
+    return {"n": n, "m": m, "items": items, "raising": raising, "fan": fan, "abandon": abandon, "kinds": kinds, "then": then, "alias": alias,
             "choices": draw(st.lists(st.integers(0, 5), max_size=250 if tier == "quick" else 500)),
             # which runnable participant runs once the drawn choices are used up: 0 = the earliest spawned (caller, loader, ...),
             # larger values let late participants (callbacks, replacement workers) overtake - e.g. the loader finishes last
@@ -195,6 +207,7 @@ def classes(case):
     if case["items"] < case["n"]: out.append("fewer-items-than-procs")
     if case["m"] and case["items"] % case["m"] == 0 and case["items"]: out.append("items-multiple-of-m")
     if case["fan"]: out.append("fanout")
+    if case.get("alias"): out.append("falsy-or-None-items")
     if case.get("then"):
         out.append("second-call-on-same-object")
         if case["raising"]: out.append("second-call-after-filter-error")
@@ -237,7 +250,7 @@ def run_real(case):
             return run_real_once(case)
         except Inconclusive:
             if attempt == 2:
-                raise Violation(f"the real multi-process call did not return within 90 s in three consecutive attempts | case={case}")
+                raise Violation(f"the real multi-process call did not return within {case.get('watchdog', 90)} s in three consecutive attempts | case={case}")
 
 def run_real_once(case):
     import multiprocessing as mp
@@ -263,9 +276,9 @@ def run_real_once(case):
     t = threading.Thread(target=target, daemon=True)
     try:
         t.start()
-        t.join(90)
+        t.join(case.get("watchdog", 90))
         if t.is_alive():
-            raise Inconclusive("watchdog: the real multi-process call did not return within 90 s")
+            raise Inconclusive(f"watchdog: the real multi-process call did not return within {case.get('watchdog', 90)} s")
     finally:
         CobaContext.logger = old_logger
         for p in mp.active_children():
@@ -309,6 +322,13 @@ def real_fixed(tier):
     # one process with a positive maxtasksperchild through CobaMultiprocessor: still no process may handle more than m items
     yield dict(base, n=1, m=1, items=3, raising=[], kinds={}, via="coba", fan={"0": 1, "1": 1, "2": 1})
     yield dict(base, n=1, m=2, items=5, raising=[], kinds={}, via="coba", fan={str(i): 1 for i in range(5)})
+    # the first item of the stream is None / falsy (the stream is peeked to see whether it is empty)
+    yield dict(base, n=1, m=0, items=3, raising=[], kinds={}, via="coba", fan={str(i): 1 for i in range(3)}, alias={"0": "None"})
+    yield dict(base, n=2, m=1, items=4, raising=[], kinds={}, via="coba", fan={str(i): 1 for i in range(4)}, alias={"0": "None", "2": "empty-tuple"})
+    yield dict(base, n=2, m=0, items=3, raising=[], kinds={}, via="pipes", alias={"0": "False", "1": "None"})
+    # more buffered output (> 64 KiB per worker) than the queue's pipe holds while the consumer stalls for 4 s after the first output:
+    # workers that are done must still deliver everything they produced
+    yield dict(base, n=2, m=0, items=3, raising=[], kinds={}, via="pipes", fan={"0": 4000, "1": 4000, "2": 1}, pause=4.0, watchdog=45)
     yield dict(base, n=2, m=1, items=5, raising=[2], kinds={"2": "AssertionError"}, via="pipes",
                then={"items": 3, "items_list": [100, 101, 102], "raising": [], "fan": {}, "abandon": None, "kinds": {}})
 
@@ -319,8 +339,8 @@ SUBCHECKS = [
     Sub(name="pb", run=run_pb, enumerate=pb_enumerate, nontrivial=lambda c: len(c["preemptions"]) >= 1, exhaustive=True,
         quick_shards=4, quick_budget_s=50, thorough_budget_s=1500,
         what="complete enumeration of all schedules with <= 1 preemption (thorough: <= 2 for the smallest) of small configurations (n<=3, items<=5, raising subsets, abandonment)"),
-    Sub(name="real_fixed", run=run_real, enumerate=real_fixed, nontrivial=lambda c: True, exhaustive=False, quick_shards=6, thorough_shards=6,
-        quick_budget_s=60, what="six fixed real-process cases run every time (incl. CobaMultiprocessor with one process and a positive maxtasksperchild): a worker dying by os._exit mid-item for three (n, m) shapes - the call must terminate without duplicated outputs - and a second call on the same object after a filter error"),
+    Sub(name="real_fixed", run=run_real, enumerate=real_fixed, nontrivial=lambda c: True, exhaustive=False, quick_shards=10, thorough_shards=10,
+        quick_budget_s=60, what="ten fixed real-process cases run every time (incl. CobaMultiprocessor with one process and a positive maxtasksperchild, streams whose first item is None / falsy, and a consumer that stalls while finished workers hold > 64 KiB of buffered outputs): a worker dying by os._exit mid-item for three (n, m) shapes - the call must terminate without duplicated outputs - and a second call on the same object after a filter error"),
     Sub(name="real", run=run_real, strategy=real_cases, nontrivial=nontrivial, classes=classes, quick=24, thorough=640,
         quick_shards=8, thorough_shards=16, quick_budget_s=60, thorough_budget_s=1200,
         what="real spawned workers via Multiprocessor (incl. read_wait) and CobaMultiprocessor; same oracle; OS schedules sampled"),
